@@ -7,6 +7,7 @@
 //! stats=<json file> seed=<n> histories=<n> length=<n> checkpoint=<n>
 //! max_states=<n> max_transitions=<n> file=<replay file>
 
+mod aset;
 mod engine;
 mod hset;
 mod nums;
@@ -100,6 +101,20 @@ fn hset_cmd<A: hset::HApi>(a: &Args) -> i32 {
     run(&sut, &|l| sut.parse(l), a)
 }
 
+fn aset_cmd<A: aset::AApi>(a: &Args) -> i32 {
+    let slots = a.num("slots", 4);
+    let sut = aset::ASut::<A> {
+        slots,
+        max_slots: a.num("max_slots", slots),
+        vals: if a.get("vals").is_some() { a.list("vals") } else { (1..7).collect() },
+        updates: a.num("updates", 0) == 1,
+        fresh_base: a.num("fresh_base", 100) as i128,
+        fill: a.num("fill", 1) == 1,
+        _p: PhantomData,
+    };
+    run(&sut, &|l| sut.parse(l), a)
+}
+
 fn main() {
     util::install_panic_hook();
     let argv: Vec<String> = std::env::args().collect();
@@ -137,6 +152,22 @@ fn main() {
             "HU8" => hset_cmd::<hset::HU8>(&a),
             "HWeak" => hset_cmd::<hset::HWeak>(&a),
             t => panic!("unknown hset type {t}"),
+        },
+        "aset" => match a.get("type").unwrap_or("A8u8") {
+            "A8u8" => aset_cmd::<aset::A8u8>(&a),
+            "A8u16" => aset_cmd::<aset::A8u16>(&a),
+            "A8u64" => aset_cmd::<aset::A8u64>(&a),
+            "A8log" => aset_cmd::<aset::A8log>(&a),
+            "A16u8" => aset_cmd::<aset::A16u8>(&a),
+            "A16u32" => aset_cmd::<aset::A16u32>(&a),
+            "A16keyed" => aset_cmd::<aset::A16keyed>(&a),
+            "A16log" => aset_cmd::<aset::A16log>(&a),
+            "A32u64" => aset_cmd::<aset::A32u64>(&a),
+            "A32u16" => aset_cmd::<aset::A32u16>(&a),
+            "A32keyed" => aset_cmd::<aset::A32keyed>(&a),
+            "A64u8" => aset_cmd::<aset::A64u8>(&a),
+            "A64u64" => aset_cmd::<aset::A64u64>(&a),
+            t => panic!("unknown aset type {t}"),
         },
         c => {
             eprintln!("unknown collection {c}");
